@@ -189,9 +189,9 @@ var _ utils.PriorityQueue
 // not a tombstone (the entry vertex of the level search is the caller's responsibility)
 // ghost function: the vertex a result slot was filled from (one assumption per slot, made when the slot is written)
 //@ ufunc slotV(int) *hnswVertex
-//@ spec resultSource(ix *Hnsw, q math.Vector, it *utils.PriorityQueueItem) bool = it != nil && istype(it.value, *hnswVertex) && it.value.(*hnswVertex) != nil && allocated(it.value.(*hnswVertex)) && istype(it.value.(*hnswVertex), hnswVertex) && it.priority == Distance(ix.space, q, it.value.(*hnswVertex).vector) && it.value.(*hnswVertex).deleted != 1
+//@ spec resultSource(ix *Hnsw, q math.Vector, it *utils.PriorityQueueItem) bool = it != nil && istype(it.value, *hnswVertex) && it.value.(*hnswVertex) != nil && it.priority == Distance(ix.space, q, it.value.(*hnswVertex).vector) && it.value.(*hnswVertex).deleted != 1
 //@ spec vtx(it *utils.PriorityQueueItem) *hnswVertex = it.value.(*hnswVertex)
-//@ spec beamItem(ix *Hnsw, q math.Vector, ep *hnswVertex, it *utils.PriorityQueueItem) bool = it != nil && istype(it.value, *hnswVertex) && vtx(it) != nil && allocated(vtx(it)) && istype(vtx(it), hnswVertex) && it.priority == Distance(ix.space, q, vtx(it).vector) && (vtx(it) == ep || vtx(it).deleted != 1)
+//@ spec beamItem(ix *Hnsw, q math.Vector, ep *hnswVertex, it *utils.PriorityQueueItem) bool = it != nil && istype(it.value, *hnswVertex) && vtx(it) != nil && it.priority == Distance(ix.space, q, vtx(it).vector) && (vtx(it) == ep || vtx(it).deleted != 1)
 //@ func (*index.Hnsw).searchLevel
 //@ props C02 C01
 //@ safety UNCLAIMED
@@ -395,23 +395,26 @@ var _ utils.PriorityQueue
 //@ end
 //@ requires [C01 entry] epLive(this)
 //@ ensures [C01 atmostk] isnil(ret1) ==> len(ret0) <= k
+//@ at call Hnsw).selectNeighborsHeuristic
+//@ requires [C01 beam-known] beamQueue(this, query, $arg2)
+//@ end
 //@ ghost lastV *hnswVertex = nil
 //@ at call priorityQueue).Pop
-//@ requires [C01 items-known] this.config.searchAlgorithm == 0 ==> allQ($arg0.queue)
+//@ requires [C01 items-known] allQ($arg0.queue)
 //@ assume [ghost function slotV: slot i of the result is filled from the item popped in this iteration; i strictly decreases, so every slot is defined once] slotV(i) == $ret0.value.(*hnswVertex)
 //@ set lastV = $ret0.value.(*hnswVertex)
 //@ end
 //@ ensures [C01 one-slot-per-beam-item] isnil(ret1) ==> len(ret0) <= beam
 //@ ensures [C01 nonempty-answer] isnil(ret1) && this.config.searchAlgorithm == 0 && k >= 1 && old(this.entrypoint != nil && this.len >= 1 && this.len < 9223372036854775808) ==> len(ret0) >= 1
-//@ ensures [C01 results-are-beam-items] isnil(ret1) && this.config.searchAlgorithm == 0 ==> forall j int :: 0 <= j && j < len(ret0) ==> exists v *hnswVertex :: v.deleted != 1 && ret0[j].Id == v.id && ret0[j].Metadata == v.metadata && ret0[j].Score == Distance(this.space, query, v.vector)
+//@ ensures [C01 results-are-beam-items] isnil(ret1) ==> forall j int :: 0 <= j && j < len(ret0) ==> exists v *hnswVertex! :: v != nil && v.deleted != 1 && ret0[j].Id == v.id && ret0[j].Metadata == v.metadata && ret0[j].Score == Distance(this.space, query, v.vector)
 //@ ensures [never-nil-nil] isnil(ret1) ==> !isnil(ret0)
 //@ modifies cells[utils.minPriorityQueue], cells[utils.maxPriorityQueue], mem[*utils.PriorityQueueItem]
 //@ loop 1
 //@ invariant [C01 descent-live] entrypoint != nil && entrypoint.deleted != 1 && minDistance == Distance(this.space, query, entrypoint.vector)
 //@ loop 2
-//@ invariant [C01 beam-queue] this.config.searchAlgorithm == 0 ==> istype(neighbors, *utils.priorityQueue) && neighbors.pay != 0 && allQ(neighbors.(*utils.priorityQueue).queue)
-//@ invariant [C01 last-slot] this.config.searchAlgorithm == 0 && i + 1 < len(result) ==> lastV != nil && lastV.deleted != 1 && result[i + 1].Id == lastV.id && result[i + 1].Metadata == lastV.metadata && result[i + 1].Score == Distance(this.space, query, lastV.vector)
-//@ invariant [C01 filled] this.config.searchAlgorithm == 0 ==> fresh(result) && 0 - 1 <= i && i < len(result) && forall j int :: i < j && j < len(result) ==> slotV(j) != nil && allocated(slotV(j)) && istype(slotV(j), hnswVertex) && slotV(j).deleted != 1 && result[j].Id == slotV(j).id && result[j].Metadata == slotV(j).metadata && result[j].Score == Distance(this.space, query, slotV(j).vector)
+//@ invariant [C01 beam-queue] istype(neighbors, *utils.priorityQueue) && neighbors.pay != 0 && allQ(neighbors.(*utils.priorityQueue).queue)
+//@ invariant [C01 last-slot] i + 1 < len(result) ==> lastV != nil && lastV.deleted != 1 && result[i + 1].Id == lastV.id && result[i + 1].Metadata == lastV.metadata && result[i + 1].Score == Distance(this.space, query, lastV.vector)
+//@ invariant [C01 filled] fresh(result) && 0 - 1 <= i && i < len(result) && forall j int :: i < j && j < len(result) ==> slotV(j) != nil && slotV(j).deleted != 1 && result[j].Id == slotV(j).id && result[j].Metadata == slotV(j).metadata && result[j].Score == Distance(this.space, query, slotV(j).vector)
 
 // ---------------------------------------------------------------------------------------------
 // C08: snapshots. Proved here: fixed-size tokens are read completely whatever the reader does (Load never calls Read on
